@@ -102,7 +102,10 @@ def c07_one(rec, case):
                 k_ = (1. * u.mJy).to(stored).value
                 spec_w = _copy.copy(spec)
                 spec_w.flux, spec_w.error = spec.flux * k_, spec.error * k_
-            (pkg.write_v1 if ver == 1 else pkg.write_v2)(md, spec_w, unit=stored)
+            if ver == 2 and c.get('cube_flags'):
+                pkg.write_v2(md, spec_w, unit=stored, valid=[(i % 2 == 0) for i in range(spec.n_models)])
+            else:
+                (pkg.write_v1 if ver == 1 else pkg.write_v2)(md, spec_w, unit=stored)
             try:
                 with pkg.quiet():
                     if c.get('two_calls') and len(filters) > 1:
@@ -166,7 +169,7 @@ def run_c07(tier, seed):
         case = dict(seed=seed, tag='c07', pseed=int(rng.integers(1, 10 ** 6)), n_models=int(rng.integers(1, 9)), n_ap=int(rng.integers(1, 6)), n_wav=int(rng.integers(12, 40)),
                     wav_desc=bool(t % 2), f_desc=bool((t // 2) % 2), nf=int(rng.integers(3, 9)), n_filters=1 + t % 3, memmap=bool((t // 3) % 2), two_calls=bool(t % 4 == 1),
                     fit=bool(t % 3 == 2), sorted_names_reversed=bool(t % 5 == 3), mixed_grids=bool(t % 4 == 2), postprocess_between=bool(t % 8 == 1),
-                    stored_unit=('Jy' if t % 6 == 4 else 'mJy'))
+                    stored_unit=('Jy' if t % 6 == 4 else 'mJy'), cube_flags=bool(t % 5 == 1))
         try:
             c07_one(rec, case)
         except Exception as e:
@@ -741,6 +744,9 @@ def c16_one(rec, case):
     rng = np.random.default_rng(c['pseed'])
     n_wav, n_ap, n_models = c['n_wav'], c['n_ap'], c['n_models']
     spec = pkg.random_spec(rng, n_models=n_models, n_ap=n_ap, n_wav=n_wav, permute=True, wav_desc=c['wav_desc'])
+    if c.get('ragged_names'):
+        # model names of different lengths, the alphabetically first one the shortest
+        spec.names = ['%s%s' % (chr(ord('a') + i), str(i + 1) * (i + 1)) for i in range(n_models)]
     wd = np.sort(spec.wav)[::-1]            # files are numbered in decreasing wavelength (increasing frequency)
     ok = True
     with pkg.scratch() as d:
@@ -759,6 +765,11 @@ def c16_one(rec, case):
         try:
             with pkg.quiet():
                 t = convolve_model_dir_monochromatic(d, max_ram=max_ram, **kw)
+                if c.get('second_run') and n_models > 1:
+                    # the same directory used again after its parameter table was rewritten in another row order
+                    spec.par_order = list(spec.par_order[1:]) + [spec.par_order[0]]
+                    pkg._write_params(d, spec, spec.par_order)
+                    t = convolve_model_dir_monochromatic(d, max_ram=max_ram, overwrite=True, **kw)
         except Exception as e:
             if not inside:
                 return True
@@ -818,7 +829,8 @@ def run_c16(tier, seed):
         for chunk in range(1, n_wav + 1):
             for w in windows:
                 case = dict(seed=seed, tag='c16', pseed=seed + 1600 + n_wav, n_wav=n_wav, n_ap=1 + (chunk + n_wav) % 3, n_models=1 + (chunk * 2 + n_wav) % 5, chunk=chunk,
-                            window=None if w is None else [float(w[0]), float(w[1])], wav_desc=bool(n_wav % 2))
+                            window=None if w is None else [float(w[0]), float(w[1])], wav_desc=bool(n_wav % 2),
+                            ragged_names=bool((chunk + n_wav) % 4 == 1), second_run=bool((chunk + 2 * n_wav) % 5 == 2))
                 try:
                     c16_one(rec, case)
                 except Exception as e:
